@@ -48,7 +48,8 @@ def f32(x):
 
 FLOATS = {"0.0": 0.0, "-0.0": -0.0, "1.5": 1.5, "0.1": 0.1, "inf": math.inf, "-inf": -math.inf, "nan": math.nan, "1e-50": 1e-50, "3.4e38": 3.4e38, "16777217.0": 16777217.0, "1e39": 1e39}
 FLOATS32 = {"0.1f": f32(0.1), "16777216.0": 16777216.0, "3.4e38": f32(3.4e38)}
-STRS = {"": "", "a": "a", "multibyte": "héllo ✓ \U0001f600", "nul": "nu\x00l", "L300": "x" * 300, "toolong": "y" * (2 ** 20 + 1), "surrogate": "bad\ud800",
+STRS = {"bom": "\ufeffhello", "bom_only": "\ufeff", "json_special": 'the 27" room \\ http://host/a//b # c\n{"k": [1, "x"]} // not a comment',
+        "": "", "a": "a", "multibyte": "héllo ✓ \U0001f600", "nul": "nu\x00l", "L300": "x" * 300, "toolong": "y" * (2 ** 20 + 1), "surrogate": "bad\ud800",
         "mb_edge": "\u00e9" * (2 ** 19), "mb_over": "\u00e9" * (2 ** 19 + 1)}
 BYTES = {"": b"", "00ff": b"\x00\xff", "L300": bytes(range(256)) + b"z" * 44, "toolong": b"q" * (2 ** 20 + 1)}
 
